@@ -23,6 +23,13 @@ def cmp_harnesses(thorough):
 
 def check(ctx):
     thorough = ctx.tier == 'thorough'
+    # Verus: the three pure comparison links, each with its spec twin; the order laws are lemmas over the twins
+    from contracts import cmp as cmpunit
+    from vxlib.rustsrc import Lost
+    try:
+        ctx.verus_unit(cmpunit.make_unit(ctx.scratch.dir), finder=None)
+    except Lost as e:
+        ctx.undecided.append('cmp reason=lost anchor: %s' % e)
     specs = [dict(name='cmp_laws_' + t, module='chardata', kind='complete', timeout=400, family='cmp_laws_' + t,
                   desc='CharacterData::cmp over kinds %s (E=Enum(default), U=all u64, F=all f64 bit patterns, S=""): antisymmetry, transitivity of <= and of ==, consistency with ==' % t)
              for t in cmp_harnesses(thorough)]
